@@ -194,27 +194,24 @@ def kernel_case(fp_cenc, np, shape, outer_opt, elem_opt, table, cuts, use_dict):
 
 
 def _kernel_worker(args):
-    (shape, outer_opt, elem_opt), maxrows, maxlen, repo, part, nparts = args
+    (shape, outer_opt, elem_opt), tier, repo, part, nparts = args
     if repo not in sys.path:
         sys.path.insert(0, repo)
     import numpy as np
     import fastparquet.cencoding as ce
-    out = []        # compact: (table_str, cuts, use_dict, ok, what)
-    n = 0
-    for ti, table in enumerate(tables(outer_opt, elem_opt, maxrows, maxlen)):
+    items = []
+    for ti, table in enumerate(kernel_tables(tier, outer_opt, elem_opt)):
         if ti % nparts != part:
             continue
         ne = sum(entries_of(table))
         for cuts in splits(ne, 3):
-            use_dict = (ti + len(cuts)) % 2 == 1
-            try:
-                ok, what = kernel_case(ce, np, shape, outer_opt, elem_opt, table, cuts, use_dict)
-            except Exception as e:
-                ok, what = False, "raised %s: %s" % (type(e).__name__, str(e)[:150])
-            n += 1
-            kinds = continuation_kinds(table, cuts)
-            out.append((table_str(table), ','.join(map(str, cuts)), use_dict, '>'.join(kinds) or 'single_page',
-                        whole_page_midchunk(kinds), ok, what))
+            items.append((table, cuts, (ti + len(cuts)) % 2 == 1))
+    res = resilient(lambda it: kernel_case(ce, np, shape, outer_opt, elem_opt, it[0], it[1], it[2]), items)
+    out = []        # compact: (table_str, cuts, use_dict, continuation, midchunk, ok, what)
+    for (table, cuts, use_dict), (ok, what) in zip(items, res):
+        kinds = continuation_kinds(table, cuts)
+        out.append((table_str(table), ','.join(map(str, cuts)), use_dict, '>'.join(kinds) or 'single_page',
+                    whole_page_midchunk(kinds), ok, what))
     return (shape, outer_opt, elem_opt), out
 
 
@@ -323,15 +320,40 @@ def file_features(case):
     }
 
 
+def kernel_tables(tier, outer_opt, elem_opt):
+    """quick: every table of <= 3 rows, collection lengths 0..3.  thorough: additionally every 4-row table with lengths 0..2."""
+    yield from tables(outer_opt, elem_opt, 3, 3)
+    if tier == 'thorough':
+        for t in tables(outer_opt, elem_opt, 4, 2):
+            if len(t) == 4:
+                yield t
+
+
+def file_tables(tier, outer_opt, elem_opt):
+    """thorough: every table of <= 2 rows with lengths 0..3 and every 3-row table with lengths 0..2.  quick: <= 2 rows
+    with lengths 0..2 (all) and 0..3 (every third table), plus every 3-row table with lengths 0..1."""
+    if tier == 'thorough':
+        yield from tables(outer_opt, elem_opt, 2, 3)
+        for t in tables(outer_opt, elem_opt, 3, 2):
+            if len(t) == 3:
+                yield t
+        return
+    for ti, t in enumerate(tables(outer_opt, elem_opt, 2, 3)):
+        if ti % 3 == 0 or all(len(r) <= 2 for r in t):
+            yield t
+    for t in tables(outer_opt, elem_opt, 3, 1):
+        if len(t) == 3:
+            yield t
+
+
 def enumerate_files(tier):
     thorough = tier == 'thorough'
     for shape, outer_opt, elem_opt in SHAPES:
-        maxrows, maxlen = (3, 3) if thorough else (3, 2)
-        for ti, table in enumerate(tables(outer_opt, elem_opt, maxrows, maxlen)):
+        for ti, table in enumerate(file_tables(tier, outer_opt, elem_opt)):
             ent = entries_of(table)
             ne = sum(ent)
             starts = list(itertools.accumulate(ent))[:-1]          # entry positions where a row starts
-            # v1: every split of the entries into <= 3 pages, PLAIN / dictionary alternating (both for <= 2 rows)
+            # v1: every split of the entries into <= 3 pages, PLAIN / dictionary alternating (both for 1-row tables)
             for cuts in splits(ne, 3):
                 for use_dict in ((False, True) if (thorough or len(table) <= 1) else ((ti + len(cuts)) % 2 == 1,)):
                     yield (shape, outer_opt, elem_opt, table, cuts, 1, use_dict, None)
@@ -340,7 +362,7 @@ def enumerate_files(tier):
                 for use_dict in ((False, True) if (thorough or len(table) <= 1) else ((ti + len(cuts)) % 2 == 0,)):
                     yield (shape, outer_opt, elem_opt, table, cuts, 2, use_dict, None)
             # two row groups: split at every row boundary; first row group in 1..2 pages
-            if thorough or len(table) <= 2 or ti % 7 == 0:
+            if thorough or ti % 2 == 0:
                 for rs in range(1, len(table)):
                     n0 = sum(ent[:rs])
                     for version in (1, 2):
@@ -386,8 +408,66 @@ def _in_fork(fn, *a):
         except Exception:
             pass
     if os.WIFSIGNALED(status):
-        return False, "interpreter died with signal %d while reading the file" % os.WTERMSIG(status)
+        return False, "interpreter died with signal %d" % os.WTERMSIG(status)
     return False, "child exited with status %d without a result" % status
+
+
+def resilient(func, items, isolate=lambda item: False):
+    """[func(item) for item in items], evaluated in forked children so that a native crash is a RESULT, not the end of
+    the check: items for which isolate(item) holds get a child of their own; the others share a child that streams its
+    results back - when it dies, the item in flight is recorded as (False, 'interpreter died ...') and a fresh child
+    continues behind it.  func returns (ok, what); an AssertionError inside func means an oracle problem -> (None, msg)."""
+    import pickle
+
+    def safe(item):
+        try:
+            return func(item)
+        except AssertionError as e:
+            return (None, "ENGINE: %s" % (e,))
+        except BaseException as e:      # noqa - a contract function must not raise; report it as a failed case
+            return (False, "raised %s: %s" % (type(e).__name__, str(e)[:160]))
+
+    results = [None] * len(items)
+    i = 0
+    while i < len(items):
+        if isolate(items[i]):
+            results[i] = _in_fork(safe, items[i])
+            i += 1
+            continue
+        j_end = i
+        while j_end < len(items) and not isolate(items[j_end]):
+            j_end += 1
+        r, w = os.pipe()
+        pid = os.fork()
+        if pid == 0:
+            code = 1
+            try:
+                os.close(r)
+                with os.fdopen(w, 'wb') as f:
+                    for j in range(i, j_end):
+                        pickle.dump((j, safe(items[j])), f)
+                        f.flush()
+                code = 0
+            finally:
+                os._exit(code)
+        os.close(w)
+        last = i - 1
+        with os.fdopen(r, 'rb') as f:
+            while True:
+                try:
+                    j, res = pickle.load(f)
+                except Exception:
+                    break
+                results[j] = res
+                last = j
+        _, status = os.waitpid(pid, 0)
+        if last < j_end - 1:
+            sig = os.WTERMSIG(status) if os.WIFSIGNALED(status) else 0
+            results[last + 1] = (False, "interpreter died with signal %d (exit status %d)" % (sig, status))
+            i = last + 2
+        else:
+            i = j_end
+    return results
 
 
 def _files_worker(args):
@@ -395,17 +475,8 @@ def _files_worker(args):
     if repo not in sys.path:
         sys.path.insert(0, repo)
     import fastparquet
-    out = []
-    for idx, case in batch:
-        try:
-            if risky(case):
-                ok, what = _in_fork(file_case, fastparquet, case)
-            else:
-                ok, what = file_case(fastparquet, case)
-        except AssertionError as e:
-            ok, what = None, "ENGINE: %s" % (e,)
-        out.append((idx, ok, what))
-    return out
+    res = resilient(lambda case: file_case(fastparquet, case), [c for _, c in batch], isolate=risky)
+    return [(idx, ok, what) for (idx, _), (ok, what) in zip(batch, res)]
 
 
 def file_snippet(case):
@@ -446,13 +517,13 @@ def run_bounded(ctx):
     thorough = ctx.tier == 'thorough'
     nw = min(16, os.cpu_count() or 4)
     # ---- kernel group -----------------------------------------------------------------------
-    kr, kl = (4, 3) if thorough else (3, 3)
     ctx.bounded_group(G_KERNEL, rule=(
-        "real cencoding._assemble_objects driven page by page as core.read_col does (v1): all tables of <= %d rows "
-        "(row = null | empty | 1..%d elements, each value or null where the schema allows) x all splits of the level "
-        "sequence into <= 3 pages x 6 shapes; PLAIN / dictionary dereference alternating" % (kr, kl)))
+        "real cencoding._assemble_objects driven page by page as core.read_col does (v1): all tables of <= 3 rows "
+        "(row = null | empty | 1..3 elements, each value or null where the schema allows)%s x all splits of the level "
+        "sequence into <= 3 pages (also inside a row) x 6 shapes; PLAIN / dictionary dereference alternating"
+        % (" and all 4-row tables with 0..2 elements per row" if thorough else "")))
     nparts = 8 if thorough else 2
-    jobs = [(s, kr, kl, REPO, part, nparts) for s in SHAPES for part in range(nparts)]
+    jobs = [(s, ctx.tier, REPO, part, nparts) for s in SHAPES for part in range(nparts)]
     with ProcessPoolExecutor(max_workers=nw) as ex:
         for (shape, oo, eo), res in ex.map(_kernel_worker, jobs):
             for tstr, cuts, use_dict, cont, mid, ok, what in res:
@@ -466,9 +537,11 @@ def run_bounded(ctx):
     t1 = time.time()
     # ---- whole files ------------------------------------------------------------------------
     ctx.bounded_group(G_FILES, rule=(
-        "whole files from spec.pqwrite through ParquetFile.to_pandas(): 6 shapes x all tables of <= 3 rows with "
-        "collection lengths 0..%d x (v1: every split into <= 3 pages, also inside a row; v2: every split at row starts) "
-        "x PLAIN/dictionary x 1..2 row groups (split at every row boundary, first group in 1..2 pages)" % (3 if thorough else 2)))
+        "whole files from spec.pqwrite through ParquetFile.to_pandas(): 6 shapes x tables (%s) x (v1: every split of the "
+        "level entries into <= 3 pages, also inside a row; v2: every split at row starts) x PLAIN/dictionary x 1..2 row "
+        "groups (split at every row boundary, first group in 1..2 pages)" % (
+            "<= 2 rows: collection lengths 0..3; 3 rows: lengths 0..2" if thorough else
+            "<= 2 rows: lengths 0..2 all and 0..3 every third; 3 rows: lengths 0..1")))
     cases = list(enumerate_files(ctx.tier))
     indexed = list(enumerate(cases))
     nb = nw * 4
